@@ -33,6 +33,10 @@ class T:  # text parameter: decimal digits, length in [lo, hi]
         for n in sorted({0, 1, self.lo - 1, self.lo, self.lo + 1, self.hi - 1, self.hi, self.hi + 1, self.hi + 5} - {-1}):
             if 0 <= n <= 64:
                 yield "".join(rng.choice(self.alphabet) for _ in range(n))
+        # far outside: lengths at which a one-byte count, a two-byte count or a buffer would overflow
+        for n in (100, 208, 224, 240, 255, 256, 257, 300, 1000, 5000, 70000):
+            if not self.lo <= n <= self.hi:
+                yield "".join(rng.choice(self.alphabet) for _ in range(n))
         base = self.valid(rng)
         for h in HOSTILE:
             if h in self.alphabet:
@@ -56,8 +60,13 @@ class B:  # byte parameter with admissible sizes
         return len(v) in self.sizes
 
     def variants(self, rng):
-        for n in range(0, 41):
+        for n in list(range(0, 41)) + [48, 64, 255, 256, 257, 1000, 4096, 70000]:
             yield rb(rng, n)
+
+
+class Data(B):  # message bytes: every length is in the domain (the sizes only steer the generator)
+    def ok(self, v):
+        return True
 
 
 class Fixed:
@@ -109,9 +118,9 @@ FUNCS = {
     "pinblock.decipher_pinblock_iso_4": ([B((16, 24, 32)), B((16, 32, 48)), T(1, 19)], False, True),
     "cvv.generate_cvv": ([B((16,)), T(0, 19), T(4, 4), T(3, 3)], False, False),
     "pin.generate_visa_pvv": ([B((8, 16, 24)), T(1, 1), T(4, 4), T(12, 10 ** 6)], False, False),
-    "mac.generate_cbc_mac": ([B((8, 16, 24)), B(tuple(range(0, 41))), PADDING, Fixed(None, 4, 8), Fixed(None, A.DES)], False, False),
-    "mac.generate_cbc_mac#aes": ([B((16, 24, 32)), B(tuple(range(0, 41))), PADDING, Fixed(None, 4, 16), Fixed(A.AES)], False, False),
-    "mac.generate_retail_mac": ([B((8, 16, 24)), B((8, 16, 24)), B(tuple(range(0, 41))), PADDING, Fixed(None, 4, 8)], False, False),
+    "mac.generate_cbc_mac": ([B((8, 16, 24)), Data(tuple(range(0, 41))), PADDING, Fixed(None, 4, 8), Fixed(None, A.DES)], False, False),
+    "mac.generate_cbc_mac#aes": ([B((16, 24, 32)), Data(tuple(range(0, 41))), PADDING, Fixed(None, 4, 16), Fixed(A.AES)], False, False),
+    "mac.generate_retail_mac": ([B((8, 16, 24)), B((8, 16, 24)), Data(tuple(range(0, 41))), PADDING, Fixed(None, 4, 8)], False, False),
     "des.apply_key_variant": ([B((8, 16, 24)), VARIANT], False, False),
     "des.generate_kcv": ([B((8, 16, 24)), Fixed(2, 3)], False, False),
 }
